@@ -606,7 +606,10 @@ class Interp:
                 if sv == BASE:
                     scriptcode, found = find_and_delete(scriptcode, push_only(sig))
                     if found and fl & F["CONST_SCRIPTCODE"]:
-                        raise ScriptFail("SIG_FINDANDDELETE")
+                        # (C11) the rule belongs to the real check; a signature listed with one of the keys of this very
+                        # operation is pretended valid there, it has no digest and no scriptCode
+                        if not (self.mock and any((sig, st[-ikey - j]) in self.mock for j in range(nkeys))):
+                            raise ScriptFail("SIG_FINDANDDELETE")
             success = True
             self.msig_trace = []
             while success and nsigs > 0:
@@ -656,6 +659,8 @@ class Interp:
                 raise ScriptFail("INVALID_STACK_OPERATION")
         if o == OP_CAT:
             need(2)
+            if len(st[-1]) + len(st[-2]) > MAX_SCRIPT_ELEMENT_SIZE:
+                raise ScriptFail("PUSH_SIZE")     # no operation puts an element of more than 520 bytes on the stack (original OP_CAT, BIP347)
             b = st.pop()
             a = st.pop()
             st.append(a + b)
@@ -1004,10 +1009,12 @@ class Session:
             if not self.scriptsig_push_only:
                 return ('fail', 'SIG_PUSHONLY', 'switch')
             st = self.p2sh_copy
-            self.p2sh_copy = None
             if not st:
                 return ('fail', 'ANY', 'switch')
             redeem = st[-1]
+            if len(redeem) > MAX_SCRIPT_SIZE:
+                return ('fail', 'SCRIPT_SIZE', 'switch')      # the redeem script is evaluated like any other script (EvalScript's first test)
+            self.p2sh_copy = None
             self._new(redeem, st[:-1])
             return ('ok', 'switch')
         if self.successor:
